@@ -15,6 +15,7 @@ def run(S):
     socket_address_len(S, D)
     node_announcement_addresses(S, D, step=False)
     node_announcement_addresses(S, D, step=True)
+    wire_dispatch(S, D)
     K.run_property(S, 'C13')
 
 
@@ -286,3 +287,89 @@ def node_announcement_addresses(S, D, step):
             [b], bounds='as above; exit through loop condition, unknown descriptor or end of section')
     S.witness(tag + '.witness', E, [], z3.And(cg, readpos0.t > 1000))
     S.witness(tag + '.witness_exit', E, [], z3.And(ok, ex_len > 0, readpos0.t > 1000))
+
+
+# BOLT 1 / 2 / 7 (+ the extension messages LDK speaks) message type numbers -> (variant of wire::Message, struct read)
+WIRE_TYPES = {
+    1: 'Warning:WarningMessage', 2: 'Stfu', 7: 'PeerStorage', 9: 'PeerStorageRetrieval', 16: 'Init', 17: 'Error:ErrorMessage', 18: 'Ping', 19: 'Pong',
+    32: 'OpenChannel', 33: 'AcceptChannel', 34: 'FundingCreated', 35: 'FundingSigned', 36: 'ChannelReady', 38: 'Shutdown', 39: 'ClosingSigned',
+    40: 'ClosingComplete', 41: 'ClosingSig', 64: 'OpenChannelV2', 65: 'AcceptChannelV2', 66: 'TxAddInput', 67: 'TxAddOutput', 68: 'TxRemoveInput',
+    69: 'TxRemoveOutput', 70: 'TxComplete', 71: 'TxSignatures', 72: 'TxInitRbf', 73: 'TxAckRbf', 74: 'TxAbort', 77: 'SpliceLocked', 80: 'SpliceInit',
+    81: 'SpliceAck', 127: 'StartBatch', 128: 'UpdateAddHTLC', 130: 'UpdateFulfillHTLC', 131: 'UpdateFailHTLC', 132: 'CommitmentSigned', 133: 'RevokeAndACK',
+    134: 'UpdateFee', 135: 'UpdateFailMalformedHTLC', 136: 'ChannelReestablish', 256: 'ChannelAnnouncement', 257: 'NodeAnnouncement', 258: 'ChannelUpdate',
+    259: 'AnnouncementSignatures', 261: 'QueryShortChannelIds', 262: 'ReplyShortChannelIdsEnd', 263: 'QueryChannelRange', 264: 'ReplyChannelRange',
+    265: 'GossipTimestampFilter', 513: 'OnionMessage'}
+
+
+def wire_binding(claim):
+    """replay (oracle wire_dispatch_battery): 24 key-free messages, each written with wire::write and read back through
+    wire::read (the public framing of peer messages): the message read must report the type number written and
+    re-encode to the same bytes. Output: number of bad messages."""
+    c = claim if z3.is_expr(claim) else X.zbool(claim)
+    return Binding('wire_dispatch_battery', [z3.IntVal(0)], [z3.If(c, 0, 1)], parse=lambda t: [0 if t[0] == '0' else 1], line_fn=lambda v: '0',
+                   via_solver=True, domain=[(0, 0)], panic=False)
+
+
+def wire_dispatch(S, D):
+    """C13.w: `wire::do_read` - the dispatch from the 2-byte message type to the decoder. For every type number of
+    BOLT 1/2/7 (and LDK's extension messages) the payload is read by that message's own decoder and comes back as the
+    variant of `wire::Message` of that message; any other type goes to the custom reader and otherwise comes back as
+    `Unknown(<that type>)`; a decoder's error is passed on. Whole function from its MIR, message type symbolic, every
+    payload decoder a stub (Ok with a value tagged by the decoder's type, or an error)."""
+    ids = ['C13.w.dispatch_by_type', 'C13.w.unknown_types', 'C13.w.nopanic', 'C13.w.witness']
+    if all(S._skip(o) for o in ids):
+        return
+    f = S.fn('do_read', contains='fn do_read(_1: &mut R, _2: u16, _3: H)')
+    E = S.engine(unwind=1)
+    mem = {}
+    reads = []
+    DE = D.variant_index('DecodeError', 'InvalidValue')
+
+    def h_read(E_, m, func, argv, guard, mem_, dty, caller):
+        name = m.group(1).split('::')[-1]
+        ok = z3.Bool('decode_ok.%s!%d' % (name, next(E.nfresh)))
+        reads.append((X.zbool(guard), name, ok))
+        return X.En('Result', z3.If(ok, 0, 1), {0: [X.Adt(name, {}, base='decoded.' + name)], 1: [X.En('DecodeError', DE, {})]})
+    cust_ok, cust_some = z3.Bool('custom_ok'), z3.Bool('custom_some')
+    for rx, h in [
+        (r'^<(.*) as (?:util::ser::)?LengthReadable>::read_from_fixed_length_buffer::<R>$', h_read),
+        (r'^<H as (?:\w+::)*CustomMessageReader>::read::<R>$', lambda *a: X.En('Result', z3.If(cust_ok, 0, 1), {0: [X.En('Option', z3.If(cust_some, 1, 0), {1: [X.Opaque('custom message')]})], 1: [X.En('DecodeError', DE, {})]})),
+    ]:
+        E.models.insert(0, (re.compile(rx), h))
+    rcell = E.new_cell()
+    mem[rcell] = X.Opaque('reader')
+    ty = E.sym('message_type', 'u16')
+    res = S.call(E, f, [X.Ref(rcell), ty, X.Opaque('custom reader')], mem)
+    ret = S.ret_guard
+    variants = D.enum_variants('Message', hint='wire')
+    vidx = {v[0]: i for i, v in enumerate(variants)}
+    r_ok = X.zint(res.d) == 0
+    msg = res.vs[0][0]
+    md = X.zint(msg.d)
+    conj = []
+    known = []
+    for t, spec in sorted(WIRE_TYPES.items()):
+        vname, sname = (spec.split(':') + [spec])[:2]
+        if vname not in vidx:
+            continue                    # cfg'd out of this build (simple_close)
+        known.append(t)
+        mine = [(g, ok) for g, n, ok in reads if n == sname]
+        if len(mine) != 1:
+            conj.append(z3.BoolVal(False))
+            continue
+        g, ok = mine[0]
+        pl = msg.vs.get(vidx[vname])
+        tagged = pl is not None and isinstance(pl[0], X.Adt) and pl[0].name == sname
+        conj.append(z3.Implies(ty.t == t, z3.And(g, z3.BoolVal(bool(tagged)), r_ok == ok, z3.Implies(ok, md == vidx[vname]),
+                                                 *[z3.Not(g2) for g2, n2, ok2 in reads if n2 != sname])))
+    other = z3.And(*[ty.t != t for t in known])
+    unk = msg.vs.get(vidx['Unknown'])
+    S.prove(ids[0], E, [], z3.And(ret, *conj),
+            'every BOLT message type number is decoded by that message\'s own decoder (and by no other) and comes back as the wire::Message variant of that message; a decoding error is passed on',
+            [wire_binding(z3.And(*conj))], bounds='whole function, all u16 message types; %d type numbers in the table; payload decoders stubbed (free success)' % len(known))
+    S.prove(ids[1], E, [other], z3.And(ret, *[z3.Not(g) for g, n, ok in reads], r_ok == cust_ok,
+                                      z3.Implies(z3.And(cust_ok, cust_some), md == vidx['Custom']),
+                                      z3.Implies(z3.And(cust_ok, z3.Not(cust_some)), z3.And(md == vidx['Unknown'], X.zint(unk[0].t) == ty.t))),
+            'a type number outside the table reaches no built-in decoder: it is offered to the custom reader and otherwise reported as Unknown(<that type>)', [])
+    S.no_panic(ids[2], E, [], 'the dispatch does not panic', [])
+    S.witness(ids[3], E, [ty.t == 69], z3.And(r_ok, md == vidx['TxRemoveOutput']))
